@@ -158,15 +158,26 @@ def async_case(chk, s, rng, c, n):
     s.cmd("NEW 2 10 10 10 10")
     out = s.cmd("ADD 1 %s %d" % (doc.hex(), level))
     if req["api"] == "asyncReuse" and int(netsim.kv(out[-1])["rc"], 16) == 0:
-        # first use of the handle: an honest exchange; the handle is kept by the caller and submitted again
-        o1 = s.cmd("RUN")
-        raw1 = b"".join(bytes.fromhex(l.split("data=")[1]) for l in o1 if l.startswith("E send"))
-        rid1 = int.from_bytes(wire.request_fields(raw1)["payload"].get(1, b""), "big")
-        s.cmd("S2C " + wire.sign_reply(wire_good("sign"), rng, rid1, doc, level, None).hex())
-        l1 = [l for l in s.cmd("RUNKEEP") if l.startswith("R run")][-1]
-        if " h=1 " not in l1 + " " or " state=3 " not in l1 + " ":
-            chk.violation("async-first-use-failed", "the first, honest use of a handle did not complete with a response: %s" % l1[:200], dict(log=s.log[-12:])); return
-        out = s.cmd("READD 1")
+        if rng.random() < 0.4:
+            # first use of the handle ends in a send timeout after the socket took only part of the request; the caller submits the handle again:
+            # the new request must travel whole (on a fresh connection), not from where the old one was cut
+            s.cmd("SENDCAPS %d 0" % rng.choice([1, 7, 10, 33, 60]))
+            s.cmd("RUN"); s.cmd("TICK 11")
+            l1 = [l for l in s.cmd("RUNKEEP") if l.startswith("R run")][-1]
+            s.cmd("SENDCAPS")
+            if " h=1 " not in l1 + " " or " state=5 " not in l1 + " ":
+                chk.violation("async-send-timeout-not-reported", "a request whose send timeout elapsed after a partial write was not handed back with an error: %s" % l1[:200], dict(log=s.log[-12:])); return
+            out = s.cmd("READD 1")
+        else:
+          # first use of the handle: an honest exchange; the handle is kept by the caller and submitted again
+          o1 = s.cmd("RUN")
+          raw1 = b"".join(bytes.fromhex(l.split("data=")[1]) for l in o1 if l.startswith("E send"))
+          rid1 = int.from_bytes(wire.request_fields(raw1)["payload"].get(1, b""), "big")
+          s.cmd("S2C " + wire.sign_reply(wire_good("sign"), rng, rid1, doc, level, None).hex())
+          l1 = [l for l in s.cmd("RUNKEEP") if l.startswith("R run")][-1]
+          if " h=1 " not in l1 + " " or " state=3 " not in l1 + " ":
+              chk.violation("async-first-use-failed", "the first, honest use of a handle did not complete with a response: %s" % l1[:200], dict(log=s.log[-12:])); return
+          out = s.cmd("READD 1")
     f = netsim.kv(out[-1])
     if int(f["rc"], 16) != 0:
         if req["alg"] != "sha1":
@@ -177,7 +188,10 @@ def async_case(chk, s, rng, c, n):
     raw = b"".join(bytes.fromhex(l.split("data=")[1]) for l in sent)
     if not raw:
         chk.violation("no-request:async", "the async service did not send the request", dict(log=s.log[-10:])); return
-    fl = wire.request_fields(raw)
+    try:
+        fl = wire.request_fields(raw)
+    except Exception as ex:
+        chk.violation("request:not-a-pdu:async:%s" % req["api"], "the bytes the async service wrote are not an aggregation request PDU (%s): %s" % (ex, raw.hex()[:200]), dict(log=s.log[-25:])); return
     check_request(chk, fl, doc, level, "async")
     rid = int.from_bytes(fl["payload"].get(1, b""), "big")
     reply = wire.sign_reply(a, rng, rid, doc, level, None)
